@@ -81,6 +81,62 @@ var c14Differential = []struct {
 	{"WITH c AS (SELECT %Q%fx(1, a) AS v FROM t) SELECT v, COUNT(*) AS n FROM c GROUP BY v", false},
 }
 
+// genC14FailingRow: a synchronous step fails on some row while ASYNC/SPINASYNC calls of earlier rows (and items) are
+// in flight. Exec reports the failure - and by then every call it started has completed: "once Exec returns".
+func genC14FailingRow(t *rapid.T) *Bundle {
+	n := rapid.IntRange(2, 6).Draw(t, "nrows")
+	rows := []any{}
+	for i := 0; i < n; i++ {
+		rows = append(rows, map[string]any{"id": float64(i + 1), "a": float64(rapid.IntRange(0, 5).Draw(t, "a") * 10), "n": []any{map[string]any{"v": float64(i)}}})
+	}
+	qual := rapid.SampledFrom([]string{"ASYNC", "SPINASYNC"}).Draw(t, "fr_qual")
+	alias := ""
+	if qual == "ASYNC" {
+		alias = " AS y"
+	}
+	q := fmt.Sprintf(rapid.SampledFrom([]string{
+		"SELECT id, %s.fx(1, a)%s, fid(2, a) AS b FROM t",
+		"SELECT id, fid(2, a) AS b, %s.fx(1, a)%s FROM t",
+		"SELECT id, %s.fx(1, a)%s FROM t WHERE fid(2, id) > 0",
+		"SELECT id, (SELECT %s.fx(1, v)%s FROM n) AS sub, fid(2, a) AS b FROM t",
+		"WITH c AS (SELECT id, %s.fx(1, a)%s, fid(2, a) AS b FROM t) SELECT * FROM c",
+	}).Draw(t, "fr_shape"), qual, alias)
+	exp := c14Expect{Place: "failing_row", Sites: []c14Site{{ID: 1, Kind: strings.ToLower(qual)}}}
+	c := oneClientCase("C14", drawSim(t, ""), map[string]any{"t": rows}, casefmt.Op{Doc: 0, Vars: -1, Query: q})
+	c.Stubs.Lat = drawLatencies(t, []int{1}, n)
+	c.Stubs.Faults = []casefmt.Fault{{ID: 2, K: rapid.IntRange(1, n).Draw(t, "fr_k"), Kind: rapid.SampledFrom([]string{"error", "panic"}).Draw(t, "fr_kind")}}
+	return &Bundle{Prop: "C14", Kind: "failing_row", Case: c, Expect: mustJSON(exp), Tags: []string{"place:failing_row"}}
+}
+
+func evalC14FailingRow(b *Bundle, r *Runner) []*Violation {
+	o := r.Run(&b.Case, false)
+	if vs := processHealth(b, o); len(vs) > 0 {
+		return vs
+	}
+	op := &o.Ops[0]
+	if !op.Returned || (!failed(op) && op.Panic == "") {
+		r.Stats.probe("failing_row_fault_not_reached")
+		return nil
+	}
+	started, late := 0, 0
+	for _, c := range o.Calls {
+		if c.ID != 1 || c.SeqStart > op.SeqReturn {
+			continue
+		}
+		started++
+		if c.SeqEnd == 0 || c.SeqEnd > op.SeqReturn {
+			late++
+		}
+	}
+	if late > 0 {
+		return []*Violation{mkViolation(b, "INCOMPLETE_AT_RETURN", "after_failure", fmt.Sprintf("%s: Exec reported %s%s%s while %d of the %d call(s) it had started were still running", b.Case.Clients[0].Ops[0].Query, op.NewErr, op.ExecErr, op.Panic, late, started), o)}
+	}
+	if started > 0 {
+		r.Stats.probe("failing_row_calls_in_flight_checked")
+	}
+	return nil
+}
+
 func genC14Differential(t *rapid.T) *Bundle {
 	n := rapid.IntRange(0, 6).Draw(t, "nrows")
 	rows := []any{}
@@ -403,13 +459,22 @@ func genC14OnceInJoinOn(t *rapid.T) *Bundle {
 		rows = append(rows, map[string]any{"id": float64(i + 1), "a": float64(i * 10), "n": []any{}})
 		want = append(want, map[string]any{"id": float64(i + 1), "o": true})
 	}
-	jt := rapid.SampledFrom([]string{"JOIN", "LEFT JOIN", "PARALLEL JOIN", "STRAIGHT_JOIN"}).Draw(t, "jt")
+	jt := rapid.SampledFrom([]string{"JOIN", "LEFT JOIN", "PARALLEL JOIN", "STRAIGHT_JOIN", "PARALLEL LEFT JOIN"}).Draw(t, "jt")
 	q := fmt.Sprintf("SELECT x.id AS id, ONCE.fid(2, TRUE) AS o FROM t x %s t y ON x.id = y.id AND ONCE.fid(1, TRUE)", jt)
 	exp := c14Expect{Place: "once_in_join_on", Rows: want, Sites: []c14Site{{ID: 1, Kind: "once", Args: []string{"b:true"}}, {ID: 2, Kind: "once", Args: []string{}}}}
+	if rapid.Bool().Draw(t, "global_in_on") {
+		// GLOBAL is the other run-once strategy: one invocation per query, however many workers evaluate ON
+		q = fmt.Sprintf("SELECT x.id AS id, ONCE.fid(2, TRUE) AS o FROM t x %s t y ON x.id = y.id AND GLOBAL.fid((SELECT 1 AS i FROM dual), (SELECT 1 AS b FROM dual)) IS NOT NULL", jt)
+		exp.Sites[0] = c14Site{ID: 1, Kind: "global", Args: []string{"map[string]interface {}"}}
+		// (the ONCE call of the select list is the only ONCE call of fid now: it is made, once)
+		exp.Sites[1].Args = []string{"b:true"}
+	}
 	if n == 0 {
 		exp.Sites[0].Args = []string{}
+		exp.Sites[1].Args = []string{}
 	}
 	c := oneClientCase("C14", drawSim(t, ""), map[string]any{"t": rows}, casefmt.Op{Doc: 0, Vars: -1, Query: q})
+	c.Stubs.Lat = drawLatencies(t, []int{1}, 4)
 	return &Bundle{Prop: "C14", Kind: "once_in_join_on", Case: c, Expect: mustJSON(exp), Tags: []string{"place:once_in_join_on"}}
 }
 
@@ -425,6 +490,8 @@ func genC14(t *rapid.T) *Bundle {
 		return genC14OnceInJoinOn(t)
 	case 7, 8, 9, 10, 11, 12:
 		return genC14Differential(t)
+	case 13, 14:
+		return genC14FailingRow(t)
 	}
 	nrows := rapid.IntRange(0, 6).Draw(t, "nrows")
 	place := rapid.SampledFrom([]string{"top", "derived_star", "cte", "subquery", "derived_cols", "subquery_in_derived", "subquery_in_cte", "union_branch", "exists", "cte_chain", "grid"}).Draw(t, "place")
@@ -739,6 +806,9 @@ func evalC14(b *Bundle, r *Runner) []*Violation {
 	}
 	if exp.Place == "differential" {
 		return evalC14Differential(b, r, &exp)
+	}
+	if exp.Place == "failing_row" {
+		return evalC14FailingRow(b, r)
 	}
 	o := r.Run(&b.Case, false)
 	vs := processHealth(b, o)
